@@ -20,7 +20,7 @@
    Remark (link to the Q statements): c01_multi gives |pos_k - c_k| <= h_k / 2 and vol = cell volume * n over
    Q; injecting these rationals into R (Q2R) gives the premises `near` and the volume used here; the
    surface distance D i j of remove_overlapping is dist l_i l_j - (r'_i + r'_j) computed in floating point.
-   Axioms: those of the standard library reals (and classic through Coquelicot, via C12). *)
+   Logical basis: the standard-library reals (and classical logic through Coquelicot, via C12). *)
 From Coq Require Import Reals Lra Lia List Psatz.
 From Coquelicot Require Import Coquelicot.
 From PD Require Import Model.Num Gen.Gen_spherical Proofs.C12.
